@@ -249,3 +249,18 @@ func C03TermClasses(terms []C03Term) []string {
 	}
 	return out
 }
+
+// C03UniformIndex draws an index in [0, n) that is (close to) uniformly
+// distributed.  rapid's own integer generators are deliberately biased towards
+// small values, which would starve the last entries of a short list of
+// must-hit values; two biased 64-bit draws are hashed together instead.
+func C03UniformIndex(t *rapid.T, n int, label string) int {
+	a := rapid.Uint64().Draw(t, label+"_ua")
+	b := rapid.Uint64().Draw(t, label+"_ub")
+	x := Expand(a^(b<<32|b>>32)^0x5bd1e995, 8)
+	v := uint64(0)
+	for i := 0; i < 8; i++ {
+		v |= uint64(x[i]) << (8 * uint(i))
+	}
+	return int(v % uint64(n))
+}
